@@ -325,9 +325,17 @@ def directed_faults(thorough, rng):
                 for e, pm, mid in variants:
                     steps = [["book", "OPEN"]]
                     if kind == "place":
-                        steps.append(place_n(n, asyn=rng.random() < 0.2))
+                        asyn = rng.random() < 0.35
+                        steps.append(place_n(n, asyn=asyn))
                         descs = [{"status": s, "with_bet": rng.random() < 0.5, "matched_frac": rng.choice([0, 0, 1, 2]), "order_status": rng.choice(["EXECUTABLE", "EXECUTABLE", "EXPIRED"])} for s in asg]
-                        steps.append(["deliver", 0, {"errors": e, "reports": descs, "perm": "id"}])
+                        if asyn and n > 1:
+                            # async: the stream delivers the bets - and completes one of them - before the response is handled
+                            descs = [dict(d, matched_frac=0) for d in descs]
+                            steps.append(["call", 0, {"errors": e, "reports": descs, "perm": "id"}])
+                            steps.append(["stream", "full"]); steps.append(["xfill", rng.randrange(n), 2]); steps.append(["stream", "full"])
+                            steps.append(["respond", 0])
+                        else:
+                            steps.append(["deliver", 0, {"errors": e, "reports": descs, "perm": "id"}])
                     else:
                         steps.append(place_n(n)); steps.append(["deliver", 0, CLEAN])
                         arg = {"cancel": rng.choice([None, 100, 250]), "update": "PERSIST", "replace": 300}[kind]
